@@ -22,6 +22,22 @@ package c07
 //	          RpcServer.NewRunNumber of remote.NewServer → local.Service number c mod k → Consul
 //	          (see remote.go): the layout of production, where the core holds no local.Service
 //
+//	(inst k)  START-UPS ARE STEPS OF THE SCHEDULE. k apricot instances (cores with an embedded
+//	          apricot, apricot daemons, coconut invocations) exist, none of them constructed when
+//	          the schedule begins. `(s j)` lets the construction of instance j — the real
+//	          local.NewService("consul://<simulator>") — begin, on a goroutine of its own, and
+//	          processes the first request it sends, if it sends one; a further `(s j)` processes
+//	          the next request of a construction still under way (a no-op otherwise — for the code
+//	          as it stands a construction sends NOTHING and is complete within its first step).
+//	          Caller c calls NewRunNumber on instance c mod k; a step that would LAUNCH a call
+//	          (`r c`, `e c` of an idle caller) while that instance is not up is a no-op. So
+//	          constructions interleave with each other, with allocations of instances already up,
+//	          with foreign writes and deletes of the key, exactly as read/CAS steps do. The
+//	          observation gets two more elements: per instance its status, the steps at which its
+//	          construction began/ended and the requests Consul processed FOR THE CONSTRUCTION, and
+//	          `(own (B A)…)` — for every write of the code under test (caller or construction)
+//	          that Consul APPLIED to the counter key, the counter's level before and after.
+//
 // The model is blind to the route as far as the protocol goes: every caller runs read ; cas
 // itself, whatever it goes through. The hop is an error boundary on top: a call that ends in an
 // error comes back with that error and NO number (Model/RunRemote.lean `viaHop`).
@@ -84,16 +100,22 @@ type callResult struct {
 
 // rig = one simulator + the real clients talking to it. Reused across cases (keep-alive).
 type rig struct {
-	consul  *fakeConsul
-	svcs    [nSlots]*local.Service
-	chains  [nSlots]*chain // remote client → gRPC server → svcs[i], built on first use (remote.go)
-	srcs    [nSlots]*cfgbackend.ConsulSource
-	foreign *cfgbackend.ConsulSource
-	kv      *api.KV
+	consul *fakeConsul
+	// what the constructors of the rig's own clients and Service objects asked of Consul (served at
+	// once against a scratch store with the key absent; nothing for the code as it stands)
+	ctorReqs []reqRecord
+	svcs     [nSlots]*local.Service
+	chains   [nSlots]*chain // remote client → gRPC server → svcs[i], built on first use (remote.go)
+	srcs     [nSlots]*cfgbackend.ConsulSource
+	foreign  *cfgbackend.ConsulSource
+	kv       *api.KV
 }
 
 func newRig() (*rig, error) {
 	g := &rig{consul: newFakeConsul()}
+	// no scenario is being replayed: whatever a constructor asks is served at once, and recorded
+	stop := g.consul.serveAtOnce(newStore(0))
+	defer func() { g.ctorReqs = stop() }()
 	for i := 0; i < nSlots; i++ {
 		svc, err := local.NewService("consul://" + g.consul.addr())
 		if err != nil {
@@ -130,7 +152,7 @@ func (g *rig) close() {
 
 // route = the optional 4th element of a protocol input.
 type route struct {
-	kind string // "" (none) | "svc" | "rpc"
+	kind string // "" (none) | "svc" | "rpc" | "inst"
 	k    int
 }
 
@@ -168,7 +190,10 @@ const (
 	phSilent // let go, no event seen since (see the header)
 )
 
+// callerRT = one ACTOR of a scenario: a caller (one call of the real code), or — route (inst k),
+// actors n..n+k-1 — the construction of one Service (svc = what it returned).
 type callerRT struct {
+	svc        *local.Service
 	phase      int
 	live       bool // its goroutine has been launched and has not returned
 	req        *request
@@ -219,10 +244,12 @@ func transportTrouble(err error) bool {
 type controller struct {
 	g       *rig
 	store   *kvStore
-	cs      []*callerRT
-	rt      route    // the route, kind "" = none
-	nSteps  int      // length of the schedule
-	returns chan int // a caller's goroutine has returned (its result is in its resCh)
+	cs      []*callerRT // callers 0..n-1, then (route inst) the constructions n..n+k-1
+	n       int         // number of callers
+	own     [][2]uint64 // (level before, level after) of every write of an actor applied to the counter key
+	rt      route       // the route, kind "" = none
+	nSteps  int         // length of the schedule
+	returns chan int    // a caller's goroutine has returned (its result is in its resCh)
 }
 
 const (
@@ -323,9 +350,16 @@ func (k *controller) answer(ci int, step int, apply bool) error {
 	var what string
 	var args []string
 	if apply {
+		before, raft := k.store.level(runNumberKey), k.store.raft
 		rp, what, args = process(k.store, c.req)
+		if k.store.raft != raft && c.req.key == runNumberKey {
+			k.own = append(k.own, [2]uint64{before, k.store.level(runNumberKey)})
+		}
 	} else {
 		rp, what, args = refuse(k.store, c.req)
+	}
+	if c.req.key != runNumberKey {
+		args = append(append([]string{}, args...), c.req.key)
 	}
 	k.record(c, what, args)
 	c.req.reply <- rp
@@ -339,11 +373,39 @@ func (k *controller) launch(ci int, step int) error {
 	c.start = step
 	c.live = true
 	returns, rt, g := k.returns, k.rt, k.g
+	var run func() callResult
+	switch {
+	case ci >= k.n: // the construction of instance ci-n
+		addr := g.consul.addr()
+		run = func() callResult {
+			svc, err := local.NewService("consul://" + addr)
+			c.svc = svc // read by the controller only after the receive from resCh
+			return callResult{err: err}
+		}
+	case rt.kind == "inst":
+		svc := k.cs[k.n+ci%rt.k].svc // up: checked by instUp before the launch
+		run = func() callResult {
+			v, err := svc.NewRunNumber()
+			return callResult{v, err}
+		}
+	default:
+		run = func() callResult { return g.call(ci, rt) }
+	}
 	go func() {
-		c.resCh <- g.call(ci, rt)
+		c.resCh <- run()
 		returns <- ci
 	}()
 	return k.settle(ci, step)
+}
+
+// instUp: caller ci may be launched — its instance has been constructed (always true off the
+// (inst k) route, where the rig's own objects are used).
+func (k *controller) instUp(ci int) bool {
+	if k.rt.kind != "inst" {
+		return true
+	}
+	a := k.cs[k.n+ci%k.rt.k]
+	return a.phase == phDone && a.res.err == nil && a.svc != nil
 }
 
 // outside runs a foreign operation (through the real client, over HTTP) to completion.
@@ -416,7 +478,7 @@ func (g *rig) runCase(input string) (string, error) {
 	var rt route
 	if len(in.List) >= 4 {
 		rn := in.At(3)
-		if !rn.IsList || len(rn.List) != 2 || (rn.At(0).Str() != "svc" && rn.At(0).Str() != "rpc") || rn.At(1).Int() < 1 || rn.At(1).Int() > nSlots {
+		if kd := rn.At(0).Str(); !rn.IsList || len(rn.List) != 2 || (kd != "svc" && kd != "rpc" && kd != "inst") || rn.At(1).Int() < 1 || rn.At(1).Int() > nSlots {
 			return "", fmt.Errorf("bad route %s", rn.String())
 		}
 		rt = route{kind: rn.At(0).Str(), k: rn.At(1).Int()}
@@ -437,8 +499,15 @@ func (g *rig) runCase(input string) (string, error) {
 			drained = true
 		}
 	}
-	k := &controller{g: g, store: store, rt: rt, nSteps: len(in.At(2).List), returns: make(chan int, n+1)}
-	for i := 0; i < n; i++ {
+	nInst := 0
+	if rt.kind == "inst" {
+		nInst = rt.k
+		// every Service constructed by this case brings a connection pool of its own
+		g.consul.setCloseConns(true)
+		defer g.consul.setCloseConns(false)
+	}
+	k := &controller{g: g, store: store, rt: rt, n: n, nSteps: len(in.At(2).List), returns: make(chan int, n+nInst+1)}
+	for i := 0; i < n+nInst; i++ {
 		k.cs = append(k.cs, &callerRT{start: -1, end: -1, trace: sx.L()})
 	}
 	var runErr error
@@ -455,8 +524,22 @@ func (g *rig) runCase(input string) (string, error) {
 			c = k.cs[ci]
 		}
 		switch kind {
+		case "s": // the construction of instance j begins / its next request is processed
+			j := st.At(1).Int()
+			if rt.kind != "inst" || j < 0 || j >= rt.k {
+				runErr = fmt.Errorf("start-up step %s without a matching (inst k) route", st.String())
+				break
+			}
+			a := k.cs[n+j]
+			if a.phase == phIdle {
+				if runErr = k.launch(n+j, i); runErr == nil && a.phase == phPending {
+					runErr = k.answer(n+j, i, true)
+				}
+			} else if a.phase == phPending {
+				runErr = k.answer(n+j, i, true)
+			}
 		case "r":
-			if c.phase == phIdle {
+			if c.phase == phIdle && k.instUp(ci) {
 				if runErr = k.launch(ci, i); runErr == nil && c.phase == phPending {
 					runErr = k.answer(ci, i, true)
 				}
@@ -467,6 +550,9 @@ func (g *rig) runCase(input string) (string, error) {
 			}
 		case "e":
 			if c.phase == phIdle {
+				if !k.instUp(ci) {
+					break
+				}
 				if runErr = k.launch(ci, i); runErr == nil && c.phase == phPending {
 					runErr = k.answer(ci, i, false)
 				}
@@ -542,7 +628,7 @@ func (g *rig) runCase(input string) (string, error) {
 		return "", runErr
 	}
 	calls := sx.L()
-	for i, c := range k.cs {
+	for i, c := range k.cs[:n] {
 		var status *sx.Node
 		end := -1
 		switch c.phase {
@@ -570,5 +656,35 @@ func (g *rig) runCase(input string) (string, error) {
 	if e := store.key(runNumberKey).cur; e != nil {
 		entry = sx.L(sx.A(string(e.raw)), sx.U64(e.idx))
 	}
-	return sx.L(calls, sx.L(sx.U64(store.raft), entry)).String(), nil
+	if rt.kind != "inst" {
+		return sx.L(calls, sx.L(sx.U64(store.raft), entry)).String(), nil
+	}
+	insts := sx.L()
+	for j, a := range k.cs[n:] {
+		var status *sx.Node
+		end := -1
+		switch a.phase {
+		case phIdle:
+			status = sx.A("down")
+		case phPending:
+			status = sx.A("starting")
+		case phDone:
+			end = a.end
+			if a.res.err == nil && a.svc != nil {
+				status = sx.A("up")
+			} else if a.res.err != nil && transportTrouble(a.res.err) {
+				return "", fmt.Errorf("c07 harness: transport trouble: %v", a.res.err)
+			} else {
+				status = sx.L(sx.A("failed"), sx.A(errClass(a.res.err)))
+			}
+		default:
+			return "", fmt.Errorf("c07 harness: inconclusive: construction %d in phase %d when the observation is written", j, a.phase)
+		}
+		insts.Add(sx.L(sx.I(j), status, dashOr(a.start), dashOr(end), a.trace))
+	}
+	own := sx.L(sx.A("own"))
+	for _, w := range k.own {
+		own.Add(sx.L(sx.U64(w[0]), sx.U64(w[1])))
+	}
+	return sx.L(calls, sx.L(sx.U64(store.raft), entry), insts, own).String(), nil
 }
